@@ -1,12 +1,310 @@
-import PeptVerif.Model.Fragment
-/-! Property theorems for C04 (fragmentation). -/
-namespace C04
-open Fragment Pept
+import PeptVerif.Lemmas.Fragment
+/-!
+Property theorems for C04: fragmentation enumerates every ion exactly once and agrees with the mass calculator; all
+return types and the cached `Fragmenter` are projections of the same list.
 
-/-- `Fragmenter(sequence, mono).fragment(args)` is `fragment(sequence, monoisotopic=mono, args)`:
-the cached mass components are the ones `fragment` computes itself. -/
+All theorems are about the executable model `PeptVerif/Model/Fragment.lean` (tied to /repo by `./check C04`), hold for
+every peptide length and for every weight function (`Env`: per-residue components, table constants, label shift,
+loss-pattern matching, `str(loss)` are arbitrary).  Helper definitions used in the statements (in
+`Lemmas/Fragment.lean`): `allKeys` (the nested loops of one call, in order), `outOf` (the loop body), `SpanOK` (where an
+ion type may be cut), `ionBase` (the part of an ion's mass that does not come from residues), `numberOf`, `project`.
+-/
+namespace C04
+open Fragment Pept Spans
+
+/-- a concrete environment for the non-vacuity examples -/
+def exEnv : Env :=
+  { P := { proton := 1, neutron := 1, fragAdjN := fun _ => 0, fragAdj := fun _ _ => 0, ionOffset := fun _ _ => 0 },
+    splitMass := fun a _ => a.seq.map fun _ => 57, labelShift := fun _ _ _ _ => 0, condenseStatic := id,
+    showLoss := fun _ => ['?'] }
+
+def exPeptide : Annotation := { seq := ['P', 'E', 'P', 'T'], nterm := some [⟨.int 1, 1⟩] }
+def exArgs : Args :=
+  { ionTypes := .many [.B, .Y, .BY, .I], charges := .many [1, 2], isotopes := .many [0, 1], waterLoss := true }
+
+/-! ## 1. span enumeration -/
+
+/-- forward ions are cut at the `n` prefixes `[0, n), [0, n-1), …, [0, 1)`, each once -/
+theorem forwardSpans_prefixes (n : Nat) (h : 1 ≤ n) :
+    forwardSpans (n : Int) = (List.range n).map (fun (k : Nat) => ((0 : Int), (n : Int) - (k : Int), (0 : Int))) ∧
+    (forwardSpans (n : Int)).Nodup ∧ (forwardSpans (n : Int)).length = n := by
+  refine ⟨forwardSpans_eq n h, ?_, by simp [forwardSpans_eq n h]⟩
+  rw [forwardSpans_eq n h]
+  exact nodup_map_of_inj List.nodup_range (fun a _ b _ hab => by simp only [Prod.mk.injEq] at hab; omega)
+
+example : forwardSpans 4 = [(0, 4, 0), (0, 3, 0), (0, 2, 0), (0, 1, 0)] := by decide
+
+/-- backward ions are cut at the `n` suffixes `[0, n), [1, n), …, [n-1, n)`, each once -/
+theorem backwardSpans_suffixes (n : Nat) (h : 1 ≤ n) :
+    backwardSpans (n : Int) = (List.range n).map (fun (k : Nat) => ((k : Int), (n : Int), (0 : Int))) ∧
+    (backwardSpans (n : Int)).Nodup ∧ (backwardSpans (n : Int)).length = n := by
+  refine ⟨backwardSpans_eq n h, ?_, by simp [backwardSpans_eq n h]⟩
+  rw [backwardSpans_eq n h]
+  exact nodup_map_of_inj List.nodup_range (fun a _ b _ hab => by simp only [Prod.mk.injEq] at hab; omega)
+
+example : backwardSpans 4 = [(0, 4, 0), (1, 4, 0), (2, 4, 0), (3, 4, 0)] := by decide
+
+/-- internal ions are cut exactly at the strictly internal spans `0 < s < e < n`, each once -/
+theorem internalSpans_strict (n : Int) :
+    (∀ s e v : Int, (s, e, v) ∈ internalSpans n ↔ 0 < s ∧ s < e ∧ e < n ∧ v = 0) ∧ (internalSpans n).Nodup := by
+  refine ⟨mem_internalSpans n, ?_⟩
+  have h := nodup_internalProj n
+  exact (List.pairwise_map.1 h).imp (fun hne heq => hne (by rw [heq]))
+
+example : internalSpans 4 = [(1, 2, 0), (1, 3, 0), (2, 3, 0)] := by decide
+
+/-- immonium ions are cut at the `n` single residues, each once -/
+theorem immoniumSpans_residues (n : Nat) :
+    immoniumSpans (n : Int) = (List.range n).map (fun (k : Nat) => ((k : Int), (k : Int) + 1, (0 : Int))) ∧
+    (immoniumSpans (n : Int)).Nodup ∧ (immoniumSpans (n : Int)).length = n := by
+  refine ⟨immoniumSpans_eq n, ?_, by simp [immoniumSpans_eq n]⟩
+  rw [immoniumSpans_eq n]
+  exact nodup_map_of_inj List.nodup_range (fun a _ b _ hab => by simp only [Prod.mk.injEq] at hab; omega)
+
+example : immoniumSpans 3 = [(0, 1, 0), (1, 2, 0), (2, 3, 0)] := by decide
+
+/-! ## 2. neutral losses are a set of sums -/
+
+/-- `get_losses` is duplicate free and contains exactly 0 and every sum of a non-empty sub-multiset of at most
+`max(1, max_losses)` applicable losses (one copy of a rule's delta per match of its pattern) -/
+theorem getLosses_set (s : List Char) (losses : List LossRule) (m : Int) :
+    (getLosses s losses m).Nodup ∧
+    ∀ x : Rat, x ∈ getLosses s losses m ↔
+      x = 0 ∨ ∃ sub : List Rat, sub.Sublist (applicableList s losses) ∧ 1 ≤ sub.length ∧
+        (sub.length : Int) ≤ max 1 m ∧ x = sub.sum :=
+  ⟨nodup_getLosses s losses m, mem_getLosses s losses m⟩
+
+example : applicableList ['A', 'A'] [(.cls ['A'], -10), (.cls ['A'], -5)] = [-10, -10, -5, -5] := by decide
+
+/-! ## 3. `fragment` never reaches the error of `get_number`; exactly one ion per requested key -/
+
+/-- On a peptide without sequence ambiguity `fragment` returns normally, and its result is one pass of the loop body
+over `allKeys` (forward, backward, internal, immonium; span > ion type > isotope > loss > charge); with unknown-position
+mods or intervals it raises `ValueError`. -/
+theorem fragment_total (env : Env) (a : Annotation) (args : Args) (mc : Option (List Rat)) :
+    (containsSequenceAmbiguity (mkJob env a args mc).annotation = false →
+      fragment env a args mc =
+        .ok ((allKeys (mkJob env a args mc) args.ionTypes.toList).flatMap (outOf (mkJob env a args mc)))) ∧
+    (containsSequenceAmbiguity (mkJob env a args mc).annotation = true →
+      fragment env a args mc = .error .valueError) :=
+  ⟨fragment_ok env a args mc, fragment_ambiguous env a args mc⟩
+
+example : containsSequenceAmbiguity (mkJob exEnv exPeptide exArgs none).annotation = false := by decide
+
+/-- the `Fragment` objects of a result -/
+def fragsOf (out : List Out) : List Frag :=
+  out.filterMap fun o => match o with
+    | .frag f => some f
+    | _ => none
+
+/-- `return_type='fragment'`: the result consists of `Fragment`s only, and their key list
+(ion type, start, end, charge, isotope, loss) is `allKeys`, in order. -/
+theorem fragment_keys (env : Env) (a : Annotation) (args : Args) (mc : Option (List Rat)) (out : List Out)
+    (hrt : args.returnType = .fragment) (h : fragment env a args mc = .ok out) :
+    out = (fragsOf out).map Out.frag ∧
+    (fragsOf out).map Frag.key = allKeys (mkJob env a args mc) args.ionTypes.toList := by
+  have hamb : containsSequenceAmbiguity (mkJob env a args mc).annotation = false := by
+    cases hc : containsSequenceAmbiguity (mkJob env a args mc).annotation
+    · rfl
+    · rw [fragment_ambiguous env a args mc hc] at h; cases h
+  rw [fragment_ok env a args mc hamb] at h
+  injection h with h
+  subst h
+  have hout : outOf (mkJob env a args mc) = fun k => [Out.frag (mkFrag (mkJob env a args mc) k)] := by
+    funext k
+    have : (mkJob env a args mc).returnType = .fragment := hrt
+    simp [outOf, this]
+  rw [hout]
+  generalize allKeys (mkJob env a args mc) args.ionTypes.toList = keys
+  induction keys with
+  | nil => exact ⟨rfl, rfl⟩
+  | cons k ks ih =>
+    obtain ⟨ih1, ih2⟩ := ih
+    refine ⟨?_, ?_⟩
+    · simp only [List.flatMap_cons, List.singleton_append, fragsOf, List.filterMap_cons, List.map_cons]
+      congr 1
+    · simp only [List.flatMap_cons, List.singleton_append, fragsOf, List.filterMap_cons, List.map_cons]
+      congr 1
+
+/-- **exactly one ion per requested key**: for duplicate-free requested ion types, isotopes and charges (losses are a
+set by construction) no key occurs twice, … -/
+theorem fragment_keys_nodup (env : Env) (a : Annotation) (args : Args) (mc : Option (List Rat)) (out : List Out)
+    (hrt : args.returnType = .fragment) (h : fragment env a args mc = .ok out)
+    (hn : 1 ≤ (mkJob env a args mc).annotation.seq.length)
+    (hi : args.ionTypes.toList.Nodup) (hiso : args.isotopes.toList.Nodup) (hc : args.charges.toList.Nodup) :
+    ((fragsOf out).map Frag.key).Nodup := by
+  rw [(fragment_keys env a args mc out hrt h).2]
+  exact nodup_allKeys _ _ hn hi hiso hc
+
+example : exArgs.ionTypes.toList.Nodup ∧ exArgs.isotopes.toList.Nodup ∧ exArgs.charges.toList.Nodup ∧
+    1 ≤ (mkJob exEnv exPeptide exArgs none).annotation.seq.length := by decide
+
+/-- … and a key occurs iff it was requested: its ion type is in the request and the span is one of that type's spans
+(`n` prefixes for a/b/c, `n` suffixes for x/y/z, the strictly internal spans for internal types, the `n` single
+residues for `i`), its isotope and charge are requested, and its loss is applicable to the span's residues. -/
+theorem fragment_keys_complete (env : Env) (a : Annotation) (args : Args) (mc : Option (List Rat)) (out : List Out)
+    (hrt : args.returnType = .fragment) (h : fragment env a args mc = .ok out)
+    (hn : 1 ≤ (mkJob env a args mc).annotation.seq.length) (k : Key) :
+    k ∈ (fragsOf out).map Frag.key ↔
+      k.ion ∈ args.ionTypes.toList ∧
+      SpanOK (alen (mkJob env a args mc).annotation) k.ion k.start k.stop ∧
+      k.isotope ∈ args.isotopes.toList ∧
+      k.loss ∈ getLosses (slice (mkJob env a args mc).annotation k.start k.stop).seq (lossList args) args.maxLosses ∧
+      k.charge ∈ args.charges.toList := by
+  rw [(fragment_keys env a args mc out hrt h).2]
+  exact mem_allKeys _ _ k hn
+
+/-- the ion types that are silently ignored produce nothing: every returned ion has one of the sixteen types -/
+theorem fragment_ions_classified (env : Env) (a : Annotation) (args : Args) (mc : Option (List Rat)) (out : List Out)
+    (hrt : args.returnType = .fragment) (h : fragment env a args mc = .ok out) (f : Frag) (hf : f ∈ fragsOf out) :
+    Classified f.ion := by
+  have hk : f.key ∈ (fragsOf out).map Frag.key := List.mem_map.2 ⟨f, hf, rfl⟩
+  rw [(fragment_keys env a args mc out hrt h).2] at hk
+  exact classified_of_mem_allKeys _ _ _ hk
+
+/-! ## 4. masses: table offset + the components of the ion's own span -/
+
+/-- every returned `Fragment` is the loop body applied to its own key -/
+theorem fragment_is_mkFrag (env : Env) (a : Annotation) (args : Args) (mc : Option (List Rat)) (out : List Out)
+    (hrt : args.returnType = .fragment) (h : fragment env a args mc = .ok out) (f : Frag) (hf : f ∈ fragsOf out) :
+    f = mkFrag (mkJob env a args mc) f.key := by
+  have hamb : containsSequenceAmbiguity (mkJob env a args mc).annotation = false := by
+    cases hc : containsSequenceAmbiguity (mkJob env a args mc).annotation
+    · rfl
+    · rw [fragment_ambiguous env a args mc hc] at h; cases h
+  rw [fragment_ok env a args mc hamb] at h
+  injection h with h
+  subst h
+  have hr : (mkJob env a args mc).returnType = .fragment := hrt
+  simp only [fragsOf, List.mem_filterMap, List.mem_flatMap] at hf
+  obtain ⟨o, ⟨k, _, ho⟩, hof⟩ := hf
+  simp only [outOf, hr, List.mem_singleton] at ho
+  subst ho
+  simp only [Option.some.injEq] at hof
+  subst hof
+  rfl
+
+/-- **components_sum**: an ion's mass is `round(Σ_{k ∈ [start, end)} component k + base)`, where `base` depends only on
+(ion type, charge, isotope, loss) and the tables — so the mass depends only on the ion's own span and key; the neutral
+mass is the same with charge 0 and no rounding; m/z is `round(mass / charge)`. -/
+theorem components_sum (env : Env) (a : Annotation) (args : Args) (mc : Option (List Rat)) (out : List Out)
+    (hrt : args.returnType = .fragment) (h : fragment env a args mc = .ok out) (f : Frag) (hf : f ∈ fragsOf out) :
+    let j := mkJob env a args mc
+    f.mass = roundOpt (spanSum j.massComponents f.start f.stop + ionBase j f.ion f.charge f.isotope f.loss) args.precision ∧
+    f.neutralMass = spanSum j.massComponents f.start f.stop + ionBase j f.ion 0 f.isotope f.loss ∧
+    f.mz = roundOpt (if f.charge = 0 then f.mass else f.mass / (f.charge : Rat)) args.precision := by
+  intro j
+  have e := fragment_is_mkFrag env a args mc out hrt h f hf
+  refine ⟨?_, ?_, ?_⟩
+  · rw [e]; exact mass_formula j f.key
+  · rw [e]; exact neutral_formula j f.key
+  · rw [e]; rfl
+
+/-- the component sum is additive in the cut point (prefix sums) … -/
+theorem spanSum_additive (comps : List Rat) (s m e : Int) (h0 : 0 ≤ s) (h1 : s ≤ m) (h2 : m ≤ e) :
+    spanSum comps s e = spanSum comps s m + spanSum comps m e :=
+  spanSum_split comps s m e h0 h1 h2
+
+example : (0 : Int) ≤ 1 ∧ (1 : Int) ≤ 3 ∧ (3 : Int) ≤ 4 := by decide
+
+/-- … and local: it reads only the components inside the span (a modification changes exactly the ions whose span
+contains its residue) -/
+theorem spanSum_local (c₁ c₂ : List Rat) (s e : Int) (h0 : 0 ≤ s)
+    (h : ∀ i : Nat, s ≤ (i : Int) → (i : Int) < e → c₁[i]? = c₂[i]?) : spanSum c₁ s e = spanSum c₂ s e :=
+  spanSum_congr c₁ c₂ s e h0 h
+
+/-! ## 5. the other return types and `Fragmenter` are projections of the same list -/
+
+/-- For each of `mass`, `mz`, `label`, `mass-label`, `mz-label` (and trivially `fragment`): the result is the
+`return_type='fragment'` result with every `Fragment` replaced by its own `.mass` / `.mz` / `.label` — same length, same
+order, same errors. -/
+theorem projections (env : Env) (a : Annotation) (args : Args) (mc : Option (List Rat)) (rt : RT) (hrt : rt ≠ .other) :
+    fragment env a { args with returnType := rt } mc =
+      (fragment env a { args with returnType := .fragment } mc) >>= fun l => l.mapM (project env.showLoss rt) := by
+  have hann : ∀ r, (mkJob env a { args with returnType := r } mc).annotation = (mkJob env a args mc).annotation :=
+    fun _ => rfl
+  cases hc : containsSequenceAmbiguity (mkJob env a args mc).annotation
+  · rw [fragment_ok env a _ mc (by rw [hann]; exact hc), fragment_ok env a _ mc (by rw [hann]; exact hc)]
+    show Except.ok ((allKeys (mkJob env a args mc) args.ionTypes.toList).flatMap
+          (outOf ((mkJob env a args mc).withRT rt))) =
+      List.mapM (project env.showLoss rt) ((allKeys (mkJob env a args mc) args.ionTypes.toList).flatMap
+          (outOf ((mkJob env a args mc).withRT .fragment)))
+    symm
+    apply mapM_flatMap_ok
+    intro k hkmem
+    exact project_outOf (mkJob env a args mc) rt hrt k (classified_of_mem_allKeys _ _ _ hkmem)
+  · rw [fragment_ambiguous env a _ mc (by rw [hann]; exact hc), fragment_ambiguous env a _ mc (by rw [hann]; exact hc)]
+    rfl
+
+/-- an unknown `return_type` appends nothing -/
+theorem unknown_return_type (env : Env) (a : Annotation) (args : Args) (mc : Option (List Rat))
+    (hrt : args.returnType = .other) (h : containsSequenceAmbiguity (mkJob env a args mc).annotation = false) :
+    fragment env a args mc = .ok [] := by
+  rw [fragment_ok env a args mc h]
+  have hr : (mkJob env a args mc).returnType = .other := hrt
+  have : outOf (mkJob env a args mc) = fun _ => [] := by funext k; simp [outOf, hr]
+  rw [this]
+  simp
+
+/-- `Fragmenter(sequence, mono).fragment(args)` is `fragment(sequence, monoisotopic=mono, args)`: the cached mass
+components are the ones `fragment` computes itself. -/
 theorem fragmenter_eq_fragment (env : Env) (a : Annotation) (mono : Bool) (args : Args) :
     (Fragmenter.new env a mono).fragment args = fragment env a { args with monoisotopic := mono } none := by
   simp [Fragmenter.fragment, Fragmenter.new, fragment, mkJob]
+
+/-! ## 6. numbering and labels -/
+
+/-- `Fragment.number` of a returned ion: prefix ions (a, b, c) carry the number of residues counted from the
+N-terminus, suffix ions (x, y, z) the number of residues counted from the C-terminus — both equal the ion's own
+length —, internal ions the two cut indices, immonium ions the residue index. -/
+theorem numbering (env : Env) (a : Annotation) (args : Args) (mc : Option (List Rat)) (out : List Out)
+    (hrt : args.returnType = .fragment) (h : fragment env a args mc = .ok out)
+    (hn : 1 ≤ (mkJob env a args mc).annotation.seq.length) (f : Frag) (hf : f ∈ fragsOf out) :
+    (f.ion.isForward = true → f.number = .ok (.int (f.stop - f.start)) ∧ f.start = 0) ∧
+    (f.ion.isBackward = true → f.number = .ok (.int (f.stop - f.start)) ∧ f.stop = alen f.parent) ∧
+    (f.ion.isInternal = true → f.number = .ok (.pair f.start f.stop)) ∧
+    (f.ion = Ion.I → f.number = .ok (.int f.start) ∧ f.stop = f.start + 1) := by
+  have hk : f.key ∈ (fragsOf out).map Frag.key := List.mem_map.2 ⟨f, hf, rfl⟩
+  have hspan := ((fragment_keys_complete env a args mc out hrt h hn f.key).1 hk).2.1
+  have hpar : f.parent = (mkJob env a args mc).annotation := by
+    rw [fragment_is_mkFrag env a args mc out hrt h f hf]; rfl
+  have hkey : f.key.ion = f.ion ∧ f.key.start = f.start ∧ f.key.stop = f.stop := ⟨rfl, rfl, rfl⟩
+  rw [hkey.1, hkey.2.1, hkey.2.2, ← hpar] at hspan
+  obtain ⟨iF, iB, iI⟩ := I_unclassified
+  refine ⟨?_, ?_, ?_, ?_⟩
+  · intro hfw
+    rcases hspan with ⟨_, h1, _, _⟩ | ⟨hb, _⟩ | ⟨hi, _⟩ | ⟨hI, _⟩
+    · refine ⟨?_, h1⟩
+      simp [Frag.number, getNumber, hfw, h1]
+    · rw [not_forward_of_backward hb] at hfw; cases hfw
+    · rw [not_forward_of_internal hi] at hfw; cases hfw
+    · rw [hI, iF] at hfw; cases hfw
+  · intro hbw
+    have hnf := not_forward_of_backward hbw
+    rcases hspan with ⟨hf', _⟩ | ⟨_, _, _, h3⟩ | ⟨hi, _⟩ | ⟨hI, _⟩
+    · rw [hnf] at hf'; cases hf'
+    · refine ⟨?_, h3⟩
+      simp [Frag.number, getNumber, hnf, hbw, h3]
+    · rw [not_backward_of_internal hi] at hbw; cases hbw
+    · rw [hI, iB] at hbw; cases hbw
+  · intro hint
+    simp [Frag.number, getNumber, not_forward_of_internal hint, not_backward_of_internal hint, hint]
+  · intro hI
+    rcases hspan with ⟨hf', _⟩ | ⟨hb, _⟩ | ⟨hi, _⟩ | ⟨_, _, _, h3⟩
+    · rw [hI, iF] at hf'; cases hf'
+    · rw [hI, iB] at hb; cases hb
+    · rw [hI, iI] at hi; cases hi
+    · refine ⟨?_, h3⟩
+      simp [Frag.number, getNumber, hI, iF, iB, iI]
+
+/-- the label text: `'+' * charge`, the ion type, the number, `(loss)` unless the loss is 0, `'*' * isotope` -/
+theorem label_format (showLoss : Rat → List Char) (f : Frag) (num : Number) (h : f.number = .ok num) :
+    f.label showLoss = .ok (List.replicate f.charge.toNat '+' ++ f.ion.name ++ num.text ++
+      (if f.loss ≠ 0 then '(' :: showLoss f.loss ++ [')'] else []) ++
+      (if f.isotope > 0 then List.replicate f.isotope.toNat '*' else [])) := by
+  simp [Frag.label, h, getLabel, rep, bind, Except.bind, pure, Except.pure]
+
+example : getLabel (fun _ => ['-', '1', '8']) Ion.Y 2 (.int 3) (-18) 1 =
+    ['+', '+', 'y', '3', '(', '-', '1', '8', ')', '*'] := by decide
 
 end C04
